@@ -664,6 +664,7 @@ class _Run:
         sent_inv: Dict[Any, int] = {}
         sent_ret: Dict[Any, int] = {}
         sent_raise: Dict[Any, str] = {}
+        raise_seq: Dict[Any, int] = {}
         recvd: Dict[Any, List[Tuple[int, str]]] = collections.defaultdict(list)
         close_seq = self.close_seq
         close_ret = self.close_ret_seq
@@ -674,6 +675,7 @@ class _Run:
                 sent_ret[d] = s
             elif op == "send" and k == "raise":
                 sent_raise[d[0]] = d[1]
+                raise_seq[d[0]] = s
             elif op == "recv" and k == "ret":
                 recvd[d].append((s, a))
         # R1
@@ -694,9 +696,11 @@ class _Run:
         for it, why in sent_raise.items():
             if why != "ChannelClosed":
                 raise Violation("C12.R5", f"send-raised-{why}", f"send of {it} raised {why}")
-            if close_seq is not None and sent_inv[it] < close_seq:
+            # A send that was IN FLIGHT when close() came may be rejected or completed - the statement
+            # is silent.  What it excludes is ChannelClosed from a channel nobody had closed yet.
+            if close_seq is None or raise_seq[it] < close_seq:
                 raise Violation("C12.R5", "ChannelClosed-before-close",
-                                f"send of {it} at #{sent_inv[it]} raised ChannelClosed before close #{close_seq}")
+                                f"send of {it} raised ChannelClosed at #{raise_seq[it]}, before any close (#{close_seq})")
         # R6
         for a, e in self.end.items():
             if e.startswith("error:"):
